@@ -20,7 +20,7 @@ META = dict(
               "real Engine with a cleanup monitor at the completion tick and a differential oracle against a fresh run",
     text="Every program of the grammar up to the size bound is run on the real engine with the instrumented UOD; a user "
          "Stop and a user Restart are issued before every tick up to the point where the run has become steady, and each "
-         "program is also run with a trailing Stop / Restart line.  At the tick in which System State becomes Stopped "
+         "grammar contains Stop / Restart lines (last statement of the main flow or of a Watch body), alone and with user requests.  At the tick in which System State becomes Stopped "
          "(Stop) or Running again (Restart): uod.command_instances is empty, no internal command besides the finishing one "
          "is registered, every UOD command that had an init event was finalized exactly once and is completed / failed / "
          "cancelled in the run log captured when on_stop fires, no tag is simulated, Run Id is None (Stop) or new "
@@ -48,11 +48,10 @@ def simulated_tags(run: Run) -> list[str]:
     return sorted(t.name for t in run.engine._iter_all_tags() if getattr(t, "simulated", False))
 
 
-def drive(lines, schedule, max_ticks, stop_rule=True):
-    """Run the program; `schedule` = ((tick, request), ...) applied before that tick.  Stops AFTER ticks after the
-    first restart completed / AFTER_STOP ticks after the first stop completed (or at max_ticks)."""
+def drive(lines, schedule, max_ticks, stop_rule=True, x=0):
+    """Run the program; `schedule` = ((tick, request), ...) applied before that tick; In1 becomes 2.0 before tick x.
+    Stops AFTER ticks after the first restart completed / AFTER_STOP ticks after System State became Stopped."""
     run = Run("\n".join(lines), observe=())
-    run.set_input("In1", 2.0)
     by_tick = collections.defaultdict(list)
     for t, req in schedule:
         by_tick[t].append(tuple(req))
@@ -65,6 +64,8 @@ def drive(lines, schedule, max_ticks, stop_rule=True):
     for t in range(max_ticks):
         if t >= end_at:
             break
+        if t == x:
+            run.set_input("In1", 2.0)
         recs = [apply_request(run, req) for req in by_tick.get(t, ())]
         ob = run.tick()
         marks = run.marks()
@@ -108,7 +109,7 @@ def ev_class(e):
 
 def completion(trace, kinds):
     """-> (kind, s, c): s = first tick in which System State became Stopped, c = completion tick (None if not reached).
-    kinds = the requests in play (user request name and/or trailing line).  With both a Stop and a Restart in play the
+    kinds = the requests in play (user request name and/or Stop/Restart lines of the method).  With both a Stop and a Restart in play the
     one that took effect is recognised by its outcome: Running again within AFTER_STOP ticks = Restart."""
     prev = "Stopped"
     s = None
@@ -127,7 +128,7 @@ def completion(trace, kinds):
     return kind, s, (again[0] if again else None)
 
 
-def judge(lines, trace, on_stop, origin, fresh, kinds):
+def judge(lines, trace, on_stop, origin, fresh, kinds, x=0):
     """-> (problems [(sig, what)], info).  origin = 'user' | 'method'."""
     probs = []
     info = {"kind": None, "nontrivial": False, "completed": False}
@@ -149,8 +150,28 @@ def judge(lines, trace, on_stop, origin, fresh, kinds):
     pre = by_n.get(s - 2)
     info["nontrivial"] = bool((pre and (pre["instances"] or pre["sim"])) or by_n[s - 1]["cmd"])
 
+    phases = collections.defaultdict(list)
+    names = {}
+    for rec in trace:
+        for (tk, name, phase, iid, it) in rec["cmd"]:
+            phases[iid].append((tk, phase))
+            names[iid] = name
+    # Root-cause diagnosis (one signature instead of its many symptoms): a command whose init falls into the cancelling
+    # tick (s-1: first step of Stop/Restart) and that is not finalized by the time System State is Stopped.
+    survivors = []
+    for iid, ph in phases.items():
+        idx = [i for i, (tk, p) in enumerate(ph) if p == "init" and tk == s - 1]
+        if idx and not any(p == "finalize" and tk <= s for tk, p in ph[idx[-1]:]):
+            survivors.append(iid)
+    if survivors:
+        iid = survivors[0]
+        probs.append((f"C10:command-started-in-cancelling-tick-survives:{tag}",
+                      f"{names[iid]} ({iid[-4:]}) was started in tick {s - 1}, the tick in which {kind} cancelled the running commands, and "
+                      f"was not cancelled: {phases[iid]}; instances at completion (tick {c}): {at_c['instances']}"))
+    surv_names = {names[i] for i in survivors}
+
     # (1) nothing holds an instance / is registered
-    if at_c["instances"]:
+    if [n for n in at_c["instances"] if n not in surv_names]:
         probs.append((f"C10:instance-left:{','.join(at_c['instances'])}:{tag}",
                       f"uod.command_instances = {at_c['instances']} at tick {c} when {kind} completed"))
     extra = [x for x in at_c["registry"] if x != kind]
@@ -158,13 +179,7 @@ def judge(lines, trace, on_stop, origin, fresh, kinds):
         probs.append((f"C10:internal-command-left:{','.join(extra)}:{tag}",
                       f"internal command(s) {extra} still registered at tick {c} when {kind} completed"))
     # (2) every started UOD command finalized once and concluded in the final run log
-    phases = collections.defaultdict(list)
-    names = {}
-    for rec in trace:
-        for (tk, name, phase, iid, it) in rec["cmd"]:
-            phases[iid].append((tk, phase))
-            names[iid] = name
-    started = [iid for iid, ph in phases.items() if any(p == "init" and tk <= s for tk, p in ph)]
+    started = [iid for iid, ph in phases.items() if any(p == "init" and tk <= s for tk, p in ph) and iid not in survivors]
     caps = [(tk, rl) for tk, rl in on_stop if tk <= c]
     final_rl = None
     if not caps:
@@ -207,14 +222,16 @@ def judge(lines, trace, on_stop, origin, fresh, kinds):
     if kind == "Restart":
         if at_c["rid"] is None or at_c["rid"] == old_rid:
             probs.append((f"C10:run-id-not-renewed:{tag}", f"Run Id after Restart is {at_c['rid']} (ended run: {old_rid})"))
-    else:
+    elif not survivors:
         for rec in trace:
             if rec["n"] > c and (rec["cmd"] or rec["instances"]):
                 probs.append((f"C10:command-activity-after-stop:{tag}", f"command events {rec['cmd']} / instances {rec['instances']} at tick {rec['n']} after Stop completed at {c}"))
                 break
     # (5) the new run equals a fresh run
     later_req = [rec["n"] for rec in trace if rec["n"] > s - 1 and any(a for (_, _, a, _) in rec["req"])]
-    if kind == "Restart" and not later_req:
+    info["compared"] = False
+    if kind == "Restart" and not later_req and x <= c and not survivors:      # In1 is 2.0 throughout the new run, as in the fresh run
+        info["compared"] = True
         n_after = trace[-1]["n"] - c          # ticks observed after the completion tick
         got = event_seq(trace, c + 1, c + 1 + n_after)
         # fresh run: Start executes in tick 0 (as Restart completes in tick c), the method begins in tick 1
@@ -249,23 +266,30 @@ def quiescent_tick(lines):
     return last_change
 
 
+def method_kinds(lines):
+    return sorted({ln.strip() for ln in lines if ln.strip() in ("Stop", "Restart")})
+
+
 def explore_program(item):
-    lines, with_user, trailing = item
+    """item = (lines, user, xs): user = True -> a user Stop and a user Restart before every tick; xs = ticks at which
+    In1 becomes 2.0 (one execution each)."""
+    lines, with_user, xs = item
     out = []
     cnt = collections.Counter()
-    fresh_cache = {}
+    fresh = fresh_trace(lines)
+    in_method = method_kinds(lines)
 
-    def one(prog, sched, origin):
-        kinds = [r[1] for _, r in sched] + ([prog[-1]] if prog[-1] in ("Stop", "Restart") else [])
-        key = tuple(prog)
-        if key not in fresh_cache:
-            fresh_cache[key] = fresh_trace(prog)
-        trace, on_stop = drive(prog, sched, T_REQ + 12 + AFTER)
-        probs, info = judge(prog, trace, on_stop, origin, fresh_cache[key], kinds)
+    def one(sched, x=0):
+        kinds = [r[1] for _, r in sched] + in_method
+        origin = "+".join((["user"] if sched else []) + (["method"] if in_method else []))
+        trace, on_stop = drive(lines, sched, T_REQ + 12 + AFTER, x=x)
+        probs, info = judge(lines, trace, on_stop, origin, fresh, kinds, x)
         cnt["exec"] += 1
+        cnt["compared"] += bool(info.get("compared"))
         cnt["ticks"] += len(trace)
         if info["completed"]:
             cnt["completed:" + info["kind"]] += 1
+            cnt["completed:" + origin] += 1
             if info["nontrivial"]:
                 cnt["nontrivial"] += 1
         elif sched:
@@ -275,29 +299,30 @@ def explore_program(item):
                 probs.append((f"C10:accepted-{sched[0][1][1]}-never-completes", f"user {sched[0][1][1]} before tick {sched[0][0]} was accepted "
                               f"but System State never became Stopped; final state {trace[-1]['state']}"))
         else:
-            cnt["no-completion"] += 1
+            cnt["method-stop-not-reached"] += 1
         seen = set()
         for sig, what in probs:
             if sig not in seen:
                 seen.add(sig)
-                out.append((sig, what, {"lines": prog, "schedule": [[t, list(r)] for t, r in sched]}))
+                out.append((sig, what, {"lines": lines, "schedule": [[t, list(r)] for t, r in sched], "x": x}))
         return trace
 
+    last = None
+    if in_method:
+        alone = one(())
+        for x in xs:
+            if x:
+                one((), x)
+        # a request after the method's own Stop/Restart completed is a request in a fresh run (enumerated anyway)
+        _, _, c_alone = completion(alone, in_method)
+        if c_alone is not None:
+            last = min(c_alone, T_REQ)
     if with_user:
-        last = min(quiescent_tick(lines) + 3, T_REQ)
+        if last is None:
+            last = min(quiescent_tick(lines) + 3, T_REQ)
         for t in range(1, last + 1):
             for name in ("Stop", "Restart"):
-                one(lines, ((t, ("user", name)),), "user")
-    for tail in trailing:
-        prog = lines + [tail]
-        alone = one(prog, (), "method")
-        if with_user == "all":
-            # a request after the method's own Stop/Restart completed is a request in a fresh run (already enumerated)
-            _, _, c_alone = completion(alone, [tail])
-            last = min(c_alone if c_alone is not None else T_REQ, T_REQ)
-            for t in range(1, last + 1):
-                for name in ("Stop", "Restart"):
-                    one(prog, ((t, ("user", name)),), "user+method")
+                one(((t, ("user", name)),))
     seen = set()
     uniq = []
     for sig, what, rep in out:
@@ -307,22 +332,62 @@ def explore_program(item):
     return uniq, dict(cnt)
 
 
+def well_formed(forest) -> bool:
+    """No opener with an empty body (the parser nests the following line under it, C17: such texts duplicate the nested
+    forms) and Stop / Restart only as the last statement of its sequence (anything after it is dead code)."""
+    for i, (kind, children) in enumerate(forest):
+        if kind in pgen.OPENERS and not children:
+            return False
+        if kind in ("St", "Rs") and i != len(forest) - 1:
+            return False
+        if not well_formed(children):
+            return False
+    return True
+
+
+X_TICKS = (0, 3, 4, 5, 6)      # In1 becomes 2.0 before this tick: shifts Watch bodies against the main flow tick by tick
+KINDS_M = ["L", "A", "M", "W1", "WaI", "St", "Rs"]     # method-issued Stop/Restart racing a Watch body / the main flow
+
+
 def corpus(ctx):
-    tails = ["Stop", "Restart"]
+    ctl = ["St", "Rs"]
     items = []
-    for f in pgen.programs(KINDS, 2, depth=2):
-        items.append((pgen.render(f), "all", tails))
+    seen = set()
+
+    def add(kinds, n, user_rule, need_watch=False):
+        for f in filter(well_formed, pgen.forests(kinds, n, 2)):
+            flat = pgen.kinds_flat(f)
+            has_ctl = any(k in ctl for k in flat)
+            if need_watch and not (has_ctl and "WaI" in flat):
+                continue
+            lines = pgen.render(f)
+            if tuple(lines) in seen:
+                continue
+            seen.add(tuple(lines))
+            items.append((lines, user_rule(f, has_ctl), X_TICKS if (has_ctl and "WaI" in flat) else (0,)))
+
     if ctx.quick:
-        for f in pgen.forests(KINDS3, 3, 2):
-            items.append((pgen.render(f), True, tails))
-        bounds = f"<=2 statements over {KINDS} (also user request x trailing Stop/Restart); 3 statements over {KINDS3}"
+        sub2 = set(pgen.forests(KINDS3 + ctl, 2, 2)) | set(pgen.forests(KINDS3 + ctl, 3, 2))
+        add(KINDS + ctl, 1, lambda f, c: True)
+        add(KINDS + ctl, 2, lambda f, c: (not c) or f in sub2)
+        add(KINDS3 + ctl, 3, lambda f, c: not c)
+        add(KINDS_M, 4, lambda f, c: False, need_watch=True)
+        bounds = (f"<=2 statements over {KINDS + ctl}; 3 statements over {KINDS3 + ctl}; user Stop/Restart at every tick for all "
+                  f"programs without Stop/Restart line and for 2-statement programs over {KINDS3 + ctl}; 4 statements over "
+                  f"{KINDS_M} with a Watch and a Stop/Restart line (no user request)")
     else:
-        for f in pgen.forests(KINDS, 3, 2):
-            items.append((pgen.render(f), True, tails))
-        for f in pgen.forests(KINDS4, 4, 2):
-            items.append((pgen.render(f), True, tails))
-        bounds = f"<=3 statements over {KINDS} (<=2: also user request x trailing Stop/Restart); 4 statements over {KINDS4}"
-    return items, bounds
+        sub3 = set(pgen.forests(KINDS4 + ctl, 3, 2))
+        add(KINDS + ctl, 1, lambda f, c: True)
+        add(KINDS + ctl, 2, lambda f, c: True)
+        add(KINDS + ctl, 3, lambda f, c: (not c) or f in sub3)
+        add(KINDS4 + ctl, 4, lambda f, c: not c)
+        add(KINDS_M, 4, lambda f, c: False, need_watch=True)
+        add(KINDS_M, 5, lambda f, c: False, need_watch=True)
+        bounds = (f"<=3 statements over {KINDS + ctl}; 4 statements over {KINDS4 + ctl}; user Stop/Restart at every tick for all "
+                  f"programs without Stop/Restart line, for <=2 statements with one and for 3 statements over {KINDS4 + ctl}; "
+                  f"4-5 statements over {KINDS_M} with a Watch and a Stop/Restart line (no user request)")
+    return items, bounds + (f"; programs with a Watch and a Stop/Restart line once per In1-rise tick {X_TICKS}; openers with empty "
+                            "body excluded; Stop/Restart only as last statement of its sequence")
 
 
 def run(ctx):
@@ -340,22 +405,26 @@ def run(ctx):
         states=tot["ticks"], transitions=tot["ticks"], traces_validated_against_impl=tot["exec"], evaluations=tot["exec"],
         distinct_nontrivial=tot["nontrivial"], programs=len(items), stop_completions_examined=tot["completed:Stop"],
         restart_completions_examined=tot["completed:Restart"], requests_rejected=tot["request-rejected"],
-        runs_without_completion=tot["no-completion"] + tot["request-accepted-no-completion"],
+        method_stop_not_reached=tot["method-stop-not-reached"], completions_by_origin={k.split(":")[1]: v for k, v in tot.items()
+                                                                                      if k.startswith("completed:") and k[10:] not in ("Stop", "Restart")},
         rule="one execution = one program with one user Stop/Restart before a given tick (every tick until the request-free "
-             "run is steady + 3) or with a trailing Stop/Restart line; states = ticks observed; non-trivial = the Stop/Restart "
+             "run is steady + 3, or until the method's own Stop/Restart completed) and/or with a Stop/Restart line in the method; states = ticks observed; non-trivial = the Stop/Restart "
              "landed while a UOD command instance existed, a tag was simulated or a command had an event in the cancelling tick",
         samples=[items[1][0], items[len(items) // 2][0], items[-1][0]], exhaustive=True, bounds=bounds,
-        request_ticks=f"1..min(steady+3, {T_REQ})", ticks_compared_after_restart=AFTER)
-    ctx.assumptions += ["In1 = 2.0 in every run (Watch: In1 > 1 is true unless In1 is simulated to 0)",
+        request_ticks=f"1..min(steady+3, {T_REQ})", ticks_compared_after_restart=AFTER,
+        restarted_runs_compared_with_fresh_run=tot["compared"])
+    ctx.assumptions += ["In1 = 2.0 from tick 0 (from a tick in X_TICKS for programs with Watch and Stop/Restart line); Watch: In1 > 1 is true "
+                        "from then on unless In1 is simulated to 0",
                         "only the first Stop/Restart completion of an execution is examined",
                         f"restarted run vs fresh run: marks and command starts, prefix comparison with {SLACK} ticks tolerance"]
 
 
 def replay(data):
     lines = data["lines"]
+    x = data.get("x", 0)
     sched = tuple((t, tuple(r)) for t, r in data["schedule"])
-    trace, on_stop = drive(lines, sched, T_REQ + 12 + AFTER)
-    print("program:", lines, " schedule:", sched)
+    trace, on_stop = drive(lines, sched, T_REQ + 12 + AFTER, x=x)
+    print("program:", lines, " schedule:", sched, f" In1 = 2.0 from tick {x}")
     for rec in trace:
         print(rec["n"], rec["state"], "rid=" + str(rec["rid"])[-4:], "marks+", rec["marks"],
               "cmd", [(e[1], e[2], e[3][-4:], e[4]) for e in rec["cmd"]], "inst", rec["instances"], "reg", rec["registry"],
@@ -364,9 +433,10 @@ def replay(data):
         print(f"run log at on_stop (tick {tk}):", rl if isinstance(rl, str) else [(i["name"], i["state"], i["id"][-4:]) for i in rl])
     fresh = fresh_trace(lines)
     print("fresh run:", event_seq(fresh, 1, len(fresh)))
-    origin = "user" if sched and lines[-1] not in ("Stop", "Restart") else ("user+method" if sched else "method")
-    kinds = [r[1] for _, r in sched] + ([lines[-1]] if lines[-1] in ("Stop", "Restart") else [])
-    probs, _ = judge(lines, trace, on_stop, origin, fresh, kinds)
+    in_method = method_kinds(lines)
+    origin = "+".join((["user"] if sched else []) + (["method"] if in_method else []))
+    kinds = [r[1] for _, r in sched] + in_method
+    probs, _ = judge(lines, trace, on_stop, origin, fresh, kinds, x)
     seen, out = set(), []
     for sig, what in probs:
         if sig not in seen:
